@@ -84,20 +84,91 @@ func norm(f form) form {
 	return out
 }
 
+// frame is one function body on a (static) helper call chain: the body in which locals are
+// looked up, the binding of its parameters to the caller's arguments and the caller's frame.
+type frame struct {
+	root    ast.Node
+	bind    map[types.Object]ast.Expr
+	up      *frame
+	closure bool // a function literal: the frames above it are its lexical scope
+}
+
+// resolveF follows e through parameter bindings, single-assignment locals and the fields of
+// struct literals, and returns the defining expression with the frame it belongs to.
+func resolveF(info *types.Info, fr *frame, e ast.Expr, depth int) (ast.Expr, *frame) {
+	for ; depth > 0 && fr != nil; depth-- {
+		e = ast.Unparen(e)
+		switch v := e.(type) {
+		case *ast.Ident:
+			o := core.ObjOf(info, v)
+			bound := false
+			for f := fr; f != nil && o != nil; f = f.up {
+				if b, ok := f.bind[o]; ok && f.up != nil {
+					e, fr, bound = b, f.up, true
+					break
+				}
+				if !f.closure {
+					break
+				}
+			}
+			if bound {
+				continue
+			}
+			if d, ok := tt.SingleDef(info, fr.root, v); ok && d.Rhs != nil && d.Index == -1 && d.Range == nil {
+				e = d.Rhs
+				continue
+			}
+		case *ast.SelectorExpr:
+			if core.FieldOf(info, v) == nil {
+				return e, fr
+			}
+			base, bfr := resolveF(info, fr, v.X, depth-1)
+			if u, ok := ast.Unparen(base).(*ast.UnaryExpr); ok && u.Op == token.AND {
+				base = u.X
+			}
+			lit, ok := ast.Unparen(base).(*ast.CompositeLit)
+			if !ok {
+				return e, fr
+			}
+			var val ast.Expr
+			for k, el := range lit.Elts {
+				if kv, ok := el.(*ast.KeyValueExpr); ok {
+					if id, ok := kv.Key.(*ast.Ident); ok && id.Name == v.Sel.Name {
+						val = kv.Value
+					}
+				} else if st, ok := info.TypeOf(lit).Underlying().(*types.Struct); ok && k < st.NumFields() && st.Field(k).Name() == v.Sel.Name {
+					val = el
+				}
+			}
+			if val == nil {
+				return e, fr
+			}
+			e, fr = val, bfr
+			continue
+		}
+		return e, fr
+	}
+	return e, fr
+}
+
 // evalName evaluates a string expression to literal text with holes.
 func evalName(info *types.Info, root ast.Node, e ast.Expr, depth int) form {
+	return evalNameF(info, &frame{root: root}, e, depth)
+}
+
+func evalNameF(info *types.Info, fr *frame, e ast.Expr, depth int) form {
 	e = ast.Unparen(e)
 	if s, ok := core.StringConst(info, e); ok {
 		return form{{lit: s}}
 	}
 	switch v := e.(type) {
-	case *ast.Ident:
-		if d, ok := tt.SingleDef(info, root, v); ok && d.Rhs != nil && d.Index == -1 && d.Range == nil && depth > 0 {
-			return evalName(info, root, d.Rhs, depth-1)
+	case *ast.Ident, *ast.SelectorExpr:
+		if r, rfr := resolveF(info, fr, e, 6); r != e && depth > 0 {
+			return evalNameF(info, rfr, r, depth-1)
 		}
 	case *ast.BinaryExpr:
 		if v.Op == token.ADD {
-			return norm(append(evalName(info, root, v.X, depth), evalName(info, root, v.Y, depth)...))
+			return norm(append(evalNameF(info, fr, v.X, depth), evalNameF(info, fr, v.Y, depth)...))
 		}
 	case *ast.CallExpr:
 		if f := core.CalleeFunc(info, v); f != nil && f.Pkg() != nil && f.Pkg().Path() == "fmt" && f.Name() == "Sprintf" && len(v.Args) >= 1 {
@@ -120,7 +191,7 @@ func evalName(info *types.Info, root ast.Node, e ast.Expr, depth int) form {
 						if arg >= len(v.Args) {
 							return form{{hole: e}}
 						}
-						out = append(out, evalName(info, root, v.Args[arg], depth)...)
+						out = append(out, evalNameF(info, fr, v.Args[arg], depth)...)
 						arg++
 					default:
 						return form{{hole: e}}
@@ -247,83 +318,176 @@ func (st *state) sender() {
 		return
 	}
 	info := fn.Pkg.TypesInfo
-	body := fn.Decl.Body
-	for _, raw := range core.CallsAll(body, info, func(call *ast.CallExpr, callee types.Object) bool {
-		k := sendArgs(c, info, call, callee)
-		if k < 0 || len(call.Args)-k != 4 {
-			return false
+	// every command queued on the target connection by sendTargetCommand, its closures and the
+	// same-package helpers it calls (arguments in the vocabulary of the frame that supplies them)
+	seen := map[token.Pos]bool{}
+	collectSends(c, info, fn.Decl.Body, &frame{root: fn.Decl.Body}, 3, map[ast.Node]bool{}, func(pos token.Pos, args []ast.Expr, fr *frame) {
+		if len(args) != 4 || seen[pos] {
+			return
 		}
-		s, ok := core.StringConst(info, call.Args[k])
-		return ok && strings.EqualFold(s, "hset")
-	}) {
-		// the command and its arguments (the call itself, or what a forwarding helper hands to Send)
-		call := &ast.CallExpr{Fun: raw.Fun, Lparen: raw.Lparen, Rparen: raw.Rparen, Args: raw.Args[sendArgs(c, info, raw, core.Callee(info, raw)):]}
+		seen[pos] = true
+		cmd, _ := resolveF(info, fr, args[0], 4)
+		if s, ok := core.StringConst(info, cmd); !ok || !strings.EqualFold(s, "hset") {
+			return
+		}
 		role := ""
-		val := ast.Unparen(call.Args[3])
+		val, vfr := resolveF(info, fr, args[3], 6)
+		val = ast.Unparen(val)
 		switch {
 		case core.IsFieldNamed(info, val, "DbSyncer", "runId"):
 			role = "runid"
 		case isSel(val, "CurrentVersion") && strings.HasSuffix(core.NamedTypePath(info.TypeOf(val.(*ast.SelectorExpr).X)), pkgUtils+".Checkpoint"):
 			role = "version"
+		case isSel(val, "Offset"):
+			role = "offset"
 		default:
-			for _, d := range tt.DefsOf(info, body, core.ObjOf(info, val)) {
+			for _, d := range tt.DefsOf(info, vfr.root, core.ObjOf(info, val)) {
 				if d.Rhs != nil && isSel(ast.Unparen(d.Rhs), "Offset") {
 					role = "offset"
 				}
 			}
 		}
 		if role == "" {
-			c.Undecidedf("R1.writer", "sendTargetCommand/"+c.Src(call.Args[2]), call.Pos(), "cannot tell which checkpoint value `%s` is", c.Src(val))
-			continue
+			c.Undecidedf("R1.writer", "sendTargetCommand/"+c.Src(args[2]), pos, "cannot tell which checkpoint value `%s` is", c.Src(val))
+			return
 		}
-		f := evalName(info, body, call.Args[2], 3)
+		f := evalNameF(info, fr, args[2], 4)
 		hs := f.holes()
 		if len(hs) != 1 || len(f) != 2 || f[0].hole == nil {
-			c.Undecidedf("R1.writer", "sendTargetCommand/"+role, call.Pos(), "field name `%s` does not evaluate to '<source>-<constant>'", c.Src(call.Args[2]))
-			continue
+			c.Undecidedf("R1.writer", "sendTargetCommand/"+role, pos, "field name `%s` does not evaluate to '<source>-<constant>'", c.Src(args[2]))
+			return
 		}
 		st.writer[role] = f
-		c.Check("R1.writer", "sendTargetCommand/"+role, call.Pos(), isSourceField(info, hs[0]),
+		c.Check("R1.writer", "sendTargetCommand/"+role, pos, isSourceField(info, hs[0]),
 			fmt.Sprintf("the %s is stored under %q with <addr> = the syncer's source address (%s)", role, f, c.Src(hs[0])))
-	}
+	})
 	// distinct names
-	seen := map[string]string{}
+	names := map[string]string{}
 	for _, r := range roles {
 		if f, ok := st.writer[r]; ok {
-			if other, dup := seen[f.String()]; dup {
+			if other, dup := names[f.String()]; dup {
 				c.Failf("R1.writer", "sendTargetCommand/distinct", fn.Decl.Pos(), "%s and %s are stored under the same field %q: one overwrites the other and is read back as the other", other, r, f)
 			}
-			seen[f.String()] = r
+			names[f.String()] = r
 		}
 	}
 }
 
-// sendArgs returns the index of the command name among the arguments of a call that queues a
-// command on the target connection: 0 for <conn>.Send(cmd, args...), i for a same-package helper
-// h(..., cmd, args...) whose body forwards exactly `<conn>.Send(cmd, args...)`; -1 otherwise.
-func sendArgs(c *core.Ctx, info *types.Info, call *ast.CallExpr, callee types.Object) int {
-	f, ok := callee.(*types.Func)
-	if !ok {
-		return -1
+// funcBody returns parameters and body of the function a call invokes when that is a
+// same-package function/method or a function literal bound once to a local of the frame.
+func funcBody(c *core.Ctx, info *types.Info, fr *frame, call *ast.CallExpr) (params *ast.FieldList, recv *ast.FieldList, body *ast.BlockStmt, closure bool) {
+	if lit, ok := ast.Unparen(call.Fun).(*ast.FuncLit); ok {
+		return lit.Type.Params, nil, lit.Body, true
 	}
-	if f.Name() == "Send" {
-		return 0
+	if id, ok := ast.Unparen(call.Fun).(*ast.Ident); ok {
+		if r, _ := resolveF(info, fr, id, 3); r != ast.Expr(id) {
+			if lit, ok := ast.Unparen(r).(*ast.FuncLit); ok {
+				return lit.Type.Params, nil, lit.Body, true
+			}
+		}
 	}
-	h := c.FnOf(f)
-	sig := f.Type().(*types.Signature)
-	if h == nil || h.Decl.Body == nil || h.Pkg.TypesInfo != info || !sig.Variadic() {
-		return -1
+	if h := c.FnOf(core.CalleeFunc(info, call)); h != nil && h.Decl.Body != nil && h.Pkg.TypesInfo == info {
+		return h.Decl.Type.Params, h.Decl.Recv, h.Decl.Body, false
 	}
+	return nil, nil, nil, false
+}
+
+func paramObjs(info *types.Info, params *ast.FieldList) (objs []types.Object, variadic bool) {
+	for _, fl := range params.List {
+		if _, v := fl.Type.(*ast.Ellipsis); v {
+			variadic = true
+		}
+		for _, n := range fl.Names {
+			objs = append(objs, info.Defs[n])
+		}
+		if len(fl.Names) == 0 {
+			objs = append(objs, nil)
+		}
+	}
+	return
+}
+
+// collectSends reports every <conn>.Send(cmd, args...) executed in region: direct calls, calls of
+// a forwarder (function, method or local closure whose body hands its own `cmd, args...`
+// parameters to Send) and, through parameter binding, the sends of same-package helpers.
+func collectSends(c *core.Ctx, info *types.Info, region ast.Node, fr *frame, depth int, onStack map[ast.Node]bool, emit func(token.Pos, []ast.Expr, *frame)) {
+	ast.Inspect(region, func(n ast.Node) bool {
+		if _, isLit := n.(*ast.FuncLit); isLit {
+			return false // a closure is followed where it is called
+		}
+		call, ok := n.(*ast.CallExpr)
+		if !ok {
+			return true
+		}
+		if callee := core.Callee(info, call); callee != nil && callee.Name() == "Send" {
+			if _, isFunc := callee.(*types.Func); isFunc && !call.Ellipsis.IsValid() {
+				emit(call.Pos(), call.Args, fr)
+			}
+			return true
+		}
+		params, recv, body, closure := funcBody(c, info, fr, call)
+		if body == nil || onStack[body] || depth == 0 {
+			return true
+		}
+		objs, variadic := paramObjs(info, params)
+		if variadic {
+			// a forwarder: its body sends exactly its own (cmd, rest...) parameters
+			if k := forwards(info, objs, body); k >= 0 && !call.Ellipsis.IsValid() && k < len(call.Args) {
+				emit(call.Pos(), call.Args[k:], fr)
+			}
+			return true
+		}
+		if len(objs) != len(call.Args) || call.Ellipsis.IsValid() {
+			return true
+		}
+		bind := map[types.Object]ast.Expr{}
+		for i, o := range objs {
+			if o != nil {
+				bind[o] = call.Args[i]
+			}
+		}
+		if recv != nil && len(recv.List) == 1 && len(recv.List[0].Names) == 1 {
+			if sel, ok := ast.Unparen(call.Fun).(*ast.SelectorExpr); ok {
+				bind[info.Defs[recv.List[0].Names[0]]] = sel.X
+			}
+		}
+		onStack[body] = true
+		root := ast.Node(body)
+		if closure {
+			root = fr.root // free variables of a closure are locals of the frame that defines it
+		}
+		collectSends(c, info, body, &frame{root: root, bind: bind, up: fr, closure: closure}, depth-1, onStack, emit)
+		delete(onStack, body)
+		return true
+	})
+}
+
+// forwards: body contains `<conn>.Send(p_k, p_last...)` with p_k the parameter just before the
+// variadic one; returns k.
+func forwards(info *types.Info, params []types.Object, body *ast.BlockStmt) int {
 	idx := -1
-	for _, inner := range core.CallsAll(h.Decl.Body, info, func(_ *ast.CallExpr, cal types.Object) bool { return cal != nil && cal.Name() == "Send" }) {
-		if len(inner.Args) != 2 || !inner.Ellipsis.IsValid() {
-			return -1
+	ast.Inspect(body, func(n ast.Node) bool {
+		call, ok := n.(*ast.CallExpr)
+		if !ok {
+			return true
 		}
-		i, j := paramIndex(info, h, inner.Args[0]), paramIndex(info, h, inner.Args[1])
-		if i < 0 || j != sig.Params().Len()-1 || i != j-1 {
-			return -1
+		if callee := core.Callee(info, call); callee == nil || callee.Name() != "Send" {
+			return true
 		}
-		idx = i
+		if len(call.Args) != 2 || !call.Ellipsis.IsValid() || len(params) < 2 {
+			idx = -2
+			return true
+		}
+		a, b := core.ObjOf(info, call.Args[0]), core.ObjOf(info, call.Args[1])
+		if a != nil && a == params[len(params)-2] && b == params[len(params)-1] && idx != -2 {
+			idx = len(params) - 2
+		} else {
+			idx = -2
+		}
+		return true
+	})
+	if idx < 0 {
+		return -1
 	}
 	return idx
 }
